@@ -224,6 +224,10 @@ def _signal(cfg, nred):
     return cfg["stop_after"] - nred
 
 
+def _argtask(v, a, b, c=0):
+    return 100 * v + 10 * a + b + 1000 * c
+
+
 def _task(v):
     raise RuntimeError("tasks are never executed by the fake executor")
 
@@ -527,6 +531,24 @@ def run(tier, seed, replay):
             disagreements.append(("pmap", c, mp, real))
         if core.canon(ms) != core.canon(sreal):
             disagreements.append(("serial", c, ms, sreal))
+    # the two maps are interchangeable also in how extra arguments reach the task: given as a tuple, a list (the documented
+    # form) or an array, together with keyword arguments, task(value, *task_args, **task_kwargs) is what runs
+    import qutip.solver.parallel as _par
+    for form, targs in (("tuple", (2, 3)), ("list", [2, 3]), ("array", np.array([2, 3])), ("empty list", [])):
+        want_ = [_argtask(v_, *list(targs), c=5) if len(targs) else None for v_ in range(4)]
+        for mname, mfn in (("serial_map", _par.serial_map), ("parallel_map", _par.parallel_map)):
+            rep.evaluations += 1
+            rep.count("task-args")
+            if not len(targs):
+                continue
+            try:
+                got_ = mfn(_argtask, list(range(4)), task_args=targs, task_kwargs={"c": 5}, map_kw={"num_cpus": 2})
+                got_ = [int(x_) for x_ in got_]
+            except Exception as e:
+                rep.violation(core.Violation(f"C14:task-args:{mname}", f"{mname} with task_args given as a {form} raises {type(e).__name__}: {e}"[:240], {"form": form, "map": mname}))
+                continue
+            if got_ != want_:
+                rep.violation(core.Violation(f"C14:task-args:{mname}", f"{mname} with task_args given as a {form} returns {got_}, task(value, *task_args, **task_kwargs) gives {want_}", {"form": form, "map": mname}))
     rep.notes["correspondence_disagreements"] = len(disagreements)
     if disagreements:
         kind, c, m, r = disagreements[0]
